@@ -270,7 +270,7 @@ def run_shard(ctx):
     rng = ctx.rng('c19')
     rp = gen.RandomPrograms(rng, max_depth=3, max_eqs=4, max_names=6)
     specs = []
-    for n in ctx.pick([1, 3, 5], [1, 2, 3, 4, 5, 6]):
+    for n in ctx.pick([1, 2, 3, 5], [1, 2, 3, 4, 5, 6]):
         specs.extend(spans.catalogue(n))
     idx = 0
     for spec in specs:
